@@ -328,6 +328,9 @@ func (w *rsWorld) runServe() string {
 	os.WriteFile(filepath.Join(logDir, "tile", "stray.txt"), []byte("stray"), 0o644)
 	os.MkdirAll(filepath.Join(logDir, "tile", "0", "emptydir"), 0o755)
 	os.Symlink(filepath.Join(w.tmp, "secret.txt"), filepath.Join(logDir, "tile", "link"))
+	// a directory reached through a symbolic link inside the log directory
+	os.Symlink("0", filepath.Join(logDir, "tile", "dirlink"))
+	os.Symlink("tile", filepath.Join(logDir, "tilelink"))
 
 	var sv []served
 	lp := ""
@@ -383,6 +386,7 @@ func (w *rsWorld) runServe() string {
 		"/tile/link", "/tile/stray.txt", "/.hidden", "/tile/", "/tile", "/tile/0/", "/tile/0/emptydir", "/tile/0/emptydir/", "/issuer/", "/issuer/../checkpoint",
 		"/checkpoint/", "/checkpoint/x", "//checkpoint", "/./checkpoint", "/tile/0/000/../000", "/staging/", "/_roots.pem", "/log.v3.json/",
 		"/tile/0/000%00", "/tile/0/x000/000", "/tile/8/0/000", "/tile/data/000.p/0", "/tile/0/000.p/256", "/tile/0/000.p/abc", "/issuer/..%2fcheckpoint", "/index.html", "/tile/names/../data/000",
+		"/tile/dirlink/", "/tile/dirlink", "/tilelink/", "/tilelink/0/", "/tile/dirlink/000",
 	}
 	for i := 0; i < p.Reqs-len(hostile) && i < 60; i++ {
 		base := reqs[r.Intn(len(reqs))]
